@@ -68,5 +68,9 @@ def main():
                 json.dump(meta2, open(dest + '/meta.json', 'w'), indent=1)
         finally:
             sh('git -C /repo worktree remove --force %s' % wt)
+            try:
+                os.remove(tmpd)
+            except (OSError, NameError):
+                pass
 if __name__ == "__main__":
     main()
